@@ -164,12 +164,21 @@ mod imp {
         }
         let a = |i: usize| args.get(i).and_then(|x| x.atom()).unwrap_or("").to_string();
         let (be, client, ignore, root, cert) = (a(0), a(1), a(2), a(3), a(4));
+        // how the URI names the server: DNS name (default) or IP literal
+        let host_kind = if args.len() > 5 { a(5) } else { "dns".to_string() };
+        // the `ignore_tls_errors` calls made on the builder, in order
+        let calls: Vec<bool> = match ignore.as_str() {
+            "unset" => vec![],
+            "true" => vec![true],
+            "false" => vec![false],
+            w => w.chars().map(|c| c == 't').collect(),
+        };
         if be != backend() {
             return Some(CaseResult { line: line.into(), result: "(other-backend)".into(), oracle: None, class: "skipped".into() });
         }
         let dir = pki().clone();
         let (port, app, stop, handle) = tls_server(&dir, &cert);
-        let uri: Uri = format!("ipps://localhost:{}/ipp/print", port).parse().unwrap();
+        let uri: Uri = format!("ipps://{}:{}/ipp/print", if host_kind == "ip" { "127.0.0.1" } else { "localhost" }, port).parse().unwrap();
         let root_data: Option<Vec<u8>> = match root.as_str() {
             "none" => None,
             "pem" => Some(std::fs::read(dir.join("ca.pem")).unwrap()),
@@ -181,10 +190,8 @@ mod imp {
         macro_rules! configure {
             ($b:expr) => {{
                 let mut b = $b.request_timeout(Duration::from_secs(10));
-                match ignore.as_str() {
-                    "true" => b = b.ignore_tls_errors(true),
-                    "false" => b = b.ignore_tls_errors(false),
-                    _ => {}
+                for flag in &calls {
+                    b = b.ignore_tls_errors(*flag);
                 }
                 if let Some(d) = &root_data {
                     b = b.ca_cert(d);
@@ -203,12 +210,14 @@ mod imp {
         stop.store(true, Ordering::SeqCst);
         let _ = handle.join();
         let bytes = app.load(Ordering::SeqCst);
-        let should = ignore == "true" || (cert == "valid" && (root == "pem" || root == "der"));
+        // the caller opted out exactly when the most recent call of the setter said true
+        let opted_out = calls.last() == Some(&true);
+        let should = opted_out || (cert == "valid" && (root == "pem" || root == "der"));
         let mut oracle = None;
         if accepted != should {
             oracle = Some(format!(
-                "{} client on {}: server certificate `{}`, ignore_tls_errors {}, extra root {}: the exchange was {} but must be {}",
-                client, be, cert, ignore, root, if accepted { "accepted" } else { "rejected" }, if should { "accepted" } else { "rejected" }
+                "{} client on {}: server certificate `{}`, host given as {}, ignore_tls_errors calls {:?}, extra root {}: the exchange was {} but must be {}",
+                client, be, cert, host_kind, calls, root, if accepted { "accepted" } else { "rejected" }, if should { "accepted" } else { "rejected" }
             ));
         } else if !accepted && bytes > 0 {
             oracle = Some(format!("{} client on {}: the exchange was rejected but {} bytes of the request reached the server application", client, be, bytes));
